@@ -573,6 +573,47 @@ def run(ctx, scratch):
                               case=args, expected=g['reference'], observed=g['second'], algo=algo, family='same_array_twice',
                               oracle='refit_same_array')
     ctx.extra['c14_same_array_twice'] = n_same
+    # ---- the terms regenerated from diffusion.py (Gen/NpDiffusion.v; theorems source_* of Props/C14.v), evaluated inside Coq over
+    #      exact rationals with the array semantics of Model/NpVec.v, must reproduce what the implementation returned
+    src_exprs, src_cases = [], []
+    per_algo = {}
+    for c in cases:
+        a = c['args']
+        got = c.get('got') or {}
+        shp = a['m']['shape']
+        if c['malformed'] or 'ok' not in got or shp[0] != shp[1] or a['force_bipartite'] or a['values'] is None \
+                or a['values_row'] is not None or a['values_col'] is not None or not c['seeds'] or shp[0] > 7:
+            continue
+        if got['ok'].get('bipartite') or any(isinstance(x, str) for x in got['ok']['values']):
+            continue
+        per_algo[c['algo']] = per_algo.get(c['algo'], 0) + 1
+        if per_algo[c['algo']] > (40 if quick else 300):
+            continue
+        n = shp[0]
+        dense = [[Fraction(0)] * n for _ in range(n)]
+        for (i, j, w) in a['m']['coo']:
+            dense[i][j] += Fraction(w)
+        seedvec = [Fraction(c['seeds'][i]) if i in c['seeds'] else Fraction(-1) for i in range(n)]
+        term = 'src_diffusion_fit' if c['algo'] == 'diffusion' else 'src_dirichlet_fit'
+        damping = Fraction(a.get('damping', 0.5))
+        src_exprs.append('map qz (qvresult (qvdenote (qenv_fit %s %d %s %s %d %s) %s))' % (
+            clist(dense, lambda r: clist(r, cq)), n, clist(seedvec, cq), copt(a['init'], lambda t: cq(Fraction(t))),
+            a['n_iter'], cq(damping), term))
+        src_cases.append((c, term))
+    src_vals = safe_coq_eval(ctx, 'c14src', ['Base.Util', 'Model.Diffusion', 'Model.NpExpr', 'Model.NpVec', 'Gen.NpDiffusion'],
+                             src_exprs, shard=60) if src_exprs else []
+    n_src = 0
+    for (c, term), v in zip(src_cases, src_vals or []):
+        n_src += 1
+        ctx.count('source_term:' + term, ('src', term, c['args']), True)
+        exp = [float(Fraction(x[0], x[1])) for x in v]
+        got = c['got']['ok']['values']
+        if not fvec_close(exp, got):
+            ctx.violation('Diffusion.fit' if c['algo'] == 'diffusion' else 'Dirichlet.fit',
+                          'the term regenerated from diffusion.py (%s), evaluated with the array semantics of Model/NpVec.v, '
+                          'differs from what the implementation returns' % term, case=c['args'], expected=exp, observed=got,
+                          algo=c['algo'], family=c['fam'], oracle='source_term')
+    ctx.extra['source_terms_evaluated'] = n_src
     ctx.extra['c14'] = dict(model_cases=len(cases), seed_form_reruns=n_forms, rescaled_twins=n_scaled,
                             limit_cases=len(limit_cases), limit_cases_rescaled=n_limit_scaled,
                             limit_dropped_slow_mixing=dropped, limit_n_iter=LIMIT_ITER)
